@@ -33,7 +33,8 @@ RULE = ('case = one round (N clients, delay profile, shared or separate client e
         'associations overlap in time')
 ASSUMPTIONS = ['loopback TCP is reliable']
 REQUIRED = ['oracle.client-exact', 'oracle.server-conservation', 'oracle.healthy-undisturbed',
-            'oracle.msg-id-per-thread', 'oracle.non-interference', 'baton.switches']
+            'oracle.msg-id-per-thread', 'oracle.non-interference', 'baton.switches',
+            'oracle.simultaneous-refusals', 'oracle.local-title-per-call']
 
 ROUNDS = {'quick': 24, 'thorough': 240}
 SIZES = {'quick': [16, 16, 4, 16, 24, 16, 8, 16], 'thorough': [4, 16, 16, 48, 16, 32, 8, 16]}
@@ -49,6 +50,8 @@ def plan(tier, seed):
     specs = [{'name': 'round', 'index': k, 'n': SIZES[tier][k % len(SIZES[tier])]}
              for k in range(ROUNDS[tier])]
     specs.append({'name': 'msg-id'})
+    for k in range(REJECT_ROUNDS[tier]):
+        specs.append({'name': 'reject', 'index': k, 'n': [8, 16, 32, 12][k % 4]})
     nb = BATON_ROUNDS[tier]
     for part in range(8):
         specs.append({'name': 'baton', 'lo': part * nb // 8, 'hi': (part + 1) * nb // 8})
@@ -56,6 +59,7 @@ def plan(tier, seed):
 
 
 BATON_ROUNDS = {'quick': 400, 'thorough': 20000}
+REJECT_ROUNDS = {'quick': 8, 'thorough': 120}
 
 
 def run_shard(spec, tier, seed):
@@ -64,6 +68,10 @@ def run_shard(spec, tier, seed):
         from . import c20baton
         for k in range(spec['lo'], spec['hi']):
             c20baton.run_round(res, {'baton': True, 'round': k, 'seed': seed})
+        return res
+    if spec['name'] == 'reject':
+        from . import c20reject
+        c20reject.run_round(res, {'reject': True, 'round': spec['index'], 'n': spec['n'], 'seed': seed})
         return res
     if spec['name'] == 'msg-id':
         return msg_ids(res, seed, 32 if tier == 'quick' else 64)
@@ -76,6 +84,10 @@ def replay(case):
     if case.get('baton'):
         from . import c20baton
         c20baton.run_round(res, case)
+        return res
+    if case.get('reject'):
+        from . import c20reject
+        c20reject.run_round(res, case)
         return res
     if case.get('msg_id'):
         return msg_ids(res, case.get('seed', 0), 32)
